@@ -732,7 +732,15 @@ func (s *Source) UnmarshalJSON(data []byte) error {
 	if err != nil {
 		return err
 	}
-	*s = GetAPSource(val)
+	if val.Exists("source") {
+		*s = GetAPSource(val)
+		return nil
+	}
+	// NOTE(marius): the document is the source object itself, which is what Source.MarshalJSON writes
+	if cont := JSONGetNaturalLanguageField(val, "content"); len(cont) > 0 {
+		s.Content = cont
+	}
+	s.MediaType = JSONGetMimeType(val, "mediaType")
 	return nil
 }
 
